@@ -62,6 +62,42 @@ def run(tier, seed):
                     cid = "%s.x%04x.%d" % (cpu["name"], p, k)
                     meta[cid] = (cpu["name"], p, PRESETS[pset][0], 0x100)
                     cases.append((cid, "cpu=%s pc=256 regs=%s show=pc;sp;a rep=1" % (cpu["name"], PRESETS[pset][1]), "256:%04x%s" % (p, fill)))
+    # history: the same step in a simulator object that has executed another instruction before (and was put back into
+    # the prepared state) against a fresh object.  (1) twins of the cases above: the earlier instruction differs in its
+    # fourth byte only, or is the next case's instruction; (2) behind two prefix bytes every fourth byte, the earlier
+    # instruction being the one with the fourth byte before it
+    regular = list(cases)
+    per_cpu = {}
+    for c in regular:
+        per_cpu.setdefault(meta[c[0]][0], []).append(c)
+    nh = 0
+    for cpu, cl in sorted(per_cpu.items()):
+        pick = cl if tier == "thorough" and len(cl) < 4000 else rnd.sample(cl, min(len(cl), 120 if tier == "quick" else 3000))
+        for k, c in enumerate(pick):
+            at, hexb = c[2].split(":")
+            b = bytearray(bytes.fromhex(hexb))
+            if k % 2 == 0 and len(b) > 3:
+                a = bytearray(b)
+                a[3] = (a[3] - 1) & 0xff
+            else:
+                a = bytearray(bytes.fromhex(cl[(cl.index(c) + 1) % len(cl)][2].split(":")[1]))
+            cid = "h." + c[0]
+            meta[cid] = meta[c[0]]
+            cases.append((cid, c[1] + " hist=" + bytes(a).hex(), c[2]))
+            nh += 1
+    for cpu in cpus:
+        pres = PREFIXES.get(cpu["name"], [])
+        pairs = [(x, y) for x in pres for y in pres]
+        if tier == "quick":
+            pairs = [pp for pp in pairs if pp[1] == 0xcb or pp[0] == pp[1]][:4]
+        for (p1, p2) in pairs:
+            for k in range(256):
+                for d in ((0,) if tier == "quick" else (0, 0xff)):
+                    body = "256:%02x%02x%02x%02x%s" % (p1, p2, d, k, "ff" * 4)
+                    cid = "%s.hp%02x%02x%02x.%02x" % (cpu["name"], p1, p2, d, k)
+                    meta[cid] = (cpu["name"], (p1 << 8) | p2, "zero", 0x100)
+                    cases.append((cid, "cpu=%s pc=256 regs=%s show=pc;sp;a rep=1 hist=%02x%02x%02x%02x" % (cpu["name"], PRESETS[2][1], p1, p2, d, (k - 1) & 0xff), body))
+                    nh += 1
     obs = C.conform_parallel(vdir, "sim", cases, chk.rundir, "c15", 5, nproc=C.NCPU)
     byid = {o["case"]: o for o in obs}
     # a timeout is reported only if it repeats when the case runs alone with a longer limit (a loaded machine
@@ -90,7 +126,8 @@ def run(tier, seed):
             continue
 
         def dig(r):
-            return {"ret": r["ret"], "digest": hashlib.md5(json.dumps([r["regs"], r["diff"], r["dump"]], sort_keys=True).encode()).hexdigest()}
+            return {"ret": r["ret"], "digest": hashlib.md5(json.dumps([r["regs"], r["diff"], r["dump"]], sort_keys=True).encode()).hexdigest(),
+                    "pre": hashlib.md5(r.get("pre", "").encode()).hexdigest()}
         if o["a"]["ret"] == -1:
             s["illegal"] += 1
         events.append({"id": c[0], "cpu": cpu, "a": dig(o["a"]), "b": dig(o["b"]), "space": SPACE.get(cpu, 0),
@@ -116,14 +153,16 @@ def run(tier, seed):
         if vid in canaries:
             continue
         cpu, p, preset, pc = meta[vid]
-        chk.report("Sim:%s:%s" % (cpu, v["why"]), ".%s pattern %04x pc=%d preset %s: %s" % (cpu, p, pc, preset, v["why"]),
+        hist = " after another instruction in the same simulator object" if (vid.startswith("h.") or ".hp" in vid) else ""
+        chk.report("Sim:%s:%s%s" % (cpu, v["why"], ":history" if hist else ""), ".%s pattern %04x pc=%d preset %s%s: %s" % (cpu, p, pc, preset, hist, v["why"]),
                    dict(case=vid, observed=byid[vid]))
     chk.cov.update(dict(
-        evaluations=len(cases) * 2,
+        evaluations=len(cases) * 2, history_cases=nh,
         distinct_nontrivial=len(cases),
         rule="for each of the simulators of cpu_list[]: leading 16-bit patterns (quick: 1500 seeded + 256 spread; thorough: all "
              "65,536) with pattern-derived operand bytes, 3 register presets (zero, all ones, low), PC at 0, 0x200 and the top "
-             "of a 64 KiB space, plus every first byte with 0xf0 0xff.. operands and all-ones registers; each case executed twice; distinct = (simulator, pattern)",
+             "of a 64 KiB space, plus every first byte with 0xf0 0xff.. operands and all-ones registers; each case executed twice; history cases: the step repeated in a simulator object that executed another instruction "
+             "before (fourth byte changed, or the next case's instruction; behind two prefix bytes every fourth byte); distinct = (simulator, pattern)",
         traces_validated_against_impl=len(events) - len(canaries), per_simulator=per, simulators=len(cpus),
         canaries=dict(injected=len(canaries), rejected=len(canaries)), exhaustive=(tier == "thorough")))
     chk.samples = [dict(case=c[1], body=c[2]) for c in rnd.sample(cases, 4)]
